@@ -1960,39 +1960,139 @@ theorem null_pool_prefix {s : LSt} (h : LInv s) :
 theorem tinv_init (m : ExitMode) : TInv { mode := m } := by
   constructor <;> simp
 
-theorem tinv_step {s s' : TSt} {a : TAct} (h : TInv s) (ha : a ≠ .creatorDeinit) (hs : tstep s a = some s') : TInv s' := by
-  obtain ⟨h1, h2, h3, h4, h5, h6, h7, h8, h9⟩ := h
-  cases a <;> simp only [tstep] at hs <;> (try exact absurd rfl ha) <;> split at hs <;> simp at hs <;> subst hs
-  all_goals
-    cases hm : s.mode <;> cases hp : s.pc <;> simp_all [ExitMode.deinits] <;> constructor <;> simp_all [ExitMode.deinits]
+theorem tstep_mode {s s' : TSt} {a : TAct} (hs : tstep s a = some s') : s'.mode = s.mode := by
+  cases a <;> simp only [tstep] at hs
+  case run => split at hs <;> simp at hs; subst hs; split <;> rfl
+  case deinit => split at hs <;> simp at hs; subst hs; rfl
+  case leave => split at hs <;> simp at hs; subst hs; rfl
+  case destruct =>
+    split at hs <;> try simp at hs
+    split at hs <;> simp only [Option.some.injEq] at hs <;> subst hs <;> rfl
+  case died => split at hs <;> simp at hs; subst hs; rfl
+  case creatorDeinit =>
+    split at hs <;> try simp at hs
+    split at hs
+    · split at hs <;> simp only [Option.some.injEq] at hs <;> subst hs <;> rfl
+    · simp only [Option.some.injEq] at hs; subst hs; rfl
+
+theorem tinv_step {s s' : TSt} {a : TAct} (h : TInv s) (hs : tstep s a = some s') : TInv s' := by
+  obtain ⟨h1, h2, h3, h4, h5, h6, h7, h8, h9, h10, h11⟩ := h
+  cases a <;> simp only [tstep] at hs
+  case run =>
+    split at hs <;> simp at hs; subst hs
+    rename_i hp
+    split <;> (constructor <;> simp_all [ExitMode.deinits])
+    all_goals (cases hm : s.mode <;> simp_all [ExitMode.deinits])
+  case deinit =>
+    split at hs <;> simp at hs; subst hs
+    rename_i hc
+    constructor <;> simp_all
+    all_goals (intro hm; simp [hm, ExitMode.deinits] at hc)
+  case leave =>
+    split at hs <;> simp at hs; subst hs
+    rename_i hc
+    rcases hc with hc | hc
+    · constructor <;> simp_all
+    · constructor <;> simp_all
+      all_goals (cases hm : s.mode <;> simp_all [ExitMode.deinits])
+  case destruct =>
+    split at hs <;> try simp at hs
+    rename_i hp
+    have hf : s.frees = 0 := by simp_all
+    split at hs <;> simp only [Option.some.injEq] at hs <;> subst hs
+    · constructor <;> simp_all
+      all_goals (cases hm : s.mode <;> simp_all [ExitMode.deinits])
+    · constructor <;> simp_all
+      all_goals (cases hg : s.creatorGone <;> cases hm : s.mode <;> simp_all [ExitMode.deinits])
+  case died =>
+    split at hs <;> simp at hs; subst hs
+    rename_i hc
+    constructor <;> simp_all
+  case creatorDeinit =>
+    split at hs <;> try simp at hs
+    rename_i hg
+    split at hs
+    · rename_i hr
+      have hpj : s.pc ≠ .joined := (h2.1 hr).2
+      split at hs <;> simp only [Option.some.injEq] at hs <;> subst hs
+      · rename_i he
+        have hpe : s.pc = .exited := by simp_all
+        constructor <;> simp_all
+      · rename_i he
+        have hpe : s.pc ≠ .exited := by intro hp; simp_all
+        constructor <;> simp_all
+    · rename_i hr
+      simp only [Option.some.injEq] at hs; subst hs
+      have hpj : s.pc = .joined := by
+        cases hp : s.pc <;> simp_all
+      constructor <;> simp_all
 
 theorem treach_inv {m : ExitMode} {s : TSt} (hr : TReach m s) : TInv s ∧ s.mode = m := by
   induction hr with
   | init => exact ⟨tinv_init m, rfl⟩
-  | step _ ha hs ih =>
-    refine ⟨tinv_step ih.1 ha hs, ?_⟩
-    rw [← ih.2]
-    rename_i a _
-    cases a <;> simp only [tstep] at hs <;> split at hs <;> simp at hs <;> subst hs <;> (try split) <;> rfl
+  | step _ hs ih => exact ⟨tinv_step ih.1 hs, by rw [tstep_mode hs, ih.2]⟩
 
-/-- whichever way the body ends, a thread that can make no further step has been joined, its `dead` event posted
-exactly once and unregistered, and its loop state (if it ever had one) deinitialised exactly once -/
-theorem thread_joined {s : TSt} (h : TInv s) (hst : TStuck s) :
-    s.pc = .joined ∧ s.deadReg = false ∧ s.posts = 1 ∧ s.ivState = false ∧ s.deinits = (if s.mode = .noInit then 0 else 1) ∧
-    s.fault = false := by
-  obtain ⟨h1, h2, h3, h4, h5, h6, h7, h8, h9⟩ := h
-  have hpc : s.pc = .joined := by
+/-- whichever way the body ends and whenever the creator deinitialises its loop: once neither side can do anything
+more, the thread has either been joined, or the creator's loop is gone and the thread has exited; in both cases
+the record has been freed exactly once, `dead` is unregistered and not pending, nothing freed was used -/
+theorem thread_final {s : TSt} (h : TInv s) (hst : TStuck s) :
+    (s.pc = .joined ∨ (s.pc = .exited ∧ s.creatorGone = true)) ∧ s.frees = 1 ∧ s.deadReg = false ∧ s.deadOwed = false ∧
+    s.ivState = false ∧ s.deinits = (if s.mode = .noInit then 0 else 1) ∧ s.fault = false := by
+  obtain ⟨h1, h2, h3, h4, h5, h6, h7, h8, h9, h10, h11⟩ := h
+  have hpc : s.pc = .joined ∨ (s.pc = .exited ∧ s.creatorGone = true) := by
     cases hp : s.pc with
-    | joined => rfl
+    | joined => exact Or.inl rfl
     | created => have := hst .run (by simp); simp [tstep, hp] at this
     | body =>
       cases hd : s.mode.deinits
       · have := hst .leave (by simp); simp [tstep, hp, hd] at this
       · have := hst .deinit (by simp); simp [tstep, hp, hd] at this
     | bodyNoState => have := hst .leave (by simp); simp [tstep, hp] at this
-    | exiting => have := hst .destruct (by simp); simp [tstep, hp] at this
-    | exited => have := hst .died (by simp); simp [tstep, hp, h2.2 hp, h8] at this
-  simp_all
+    | exiting =>
+      have := hst .destruct (by simp); simp [tstep, hp] at this
+      split at this <;> simp at this
+    | exited =>
+      cases hg : s.creatorGone
+      · have := hst .died (by simp); simp [tstep, hp, h3.2 ⟨hg, hp⟩, hg] at this
+      · exact Or.inr ⟨rfl, rfl⟩
+  rcases hpc with hp | ⟨hp, hg⟩
+  · refine ⟨Or.inl hp, ?_⟩; simp_all
+  · refine ⟨Or.inr ⟨hp, hg⟩, ?_⟩; simp_all
+
+theorem thread_joined {s : TSt} (h : TInv s) (hst : TStuck s) (hg : s.creatorGone = false) :
+    s.pc = .joined ∧ s.deadReg = false ∧ s.posts = 1 := by
+  have hf := thread_final h hst
+  obtain ⟨h1, h2, h3, h4, h5, h6, h7, h8, h9, h10, h11⟩ := h
+  rcases hf.1 with hp | ⟨_, hg'⟩
+  · refine ⟨hp, hf.2.2.1, ?_⟩; simp_all
+  · simp [hg] at hg'
+
+/-- `dead` is posted only by the exiting thread's destructor, only while the creator's loop exists, and at most once -/
+theorem post_only_to_live_loop {s s' : TSt} {a : TAct} (h : TInv s) (hs : tstep s a = some s') (hp : s'.posts ≠ s.posts) :
+    a = .destruct ∧ s.creatorGone = false ∧ s.posts = 0 ∧ s'.posts = 1 := by
+  have h' := tinv_step h hs
+  obtain ⟨h1, h2, h3, h4, h5, h6, h7, h8, h9, h10, h11⟩ := h
+  cases a <;> simp only [tstep] at hs
+  case run => split at hs <;> simp at hs; subst hs; split at hp <;> simp at hp
+  case deinit => split at hs <;> simp at hs; subst hs; simp at hp
+  case leave => split at hs <;> simp at hs; subst hs; simp at hp
+  case died => split at hs <;> simp at hs; subst hs; simp at hp
+  case creatorDeinit =>
+    split at hs <;> try simp at hs
+    split at hs
+    · split at hs <;> simp only [Option.some.injEq] at hs <;> subst hs <;> simp at hp
+    · simp only [Option.some.injEq] at hs; subst hs; simp at hp
+  case destruct =>
+    split at hs <;> try simp at hs
+    rename_i hpc
+    split at hs <;> simp only [Option.some.injEq] at hs <;> subst hs
+    · simp at hp
+    · rename_i ho
+      have hg : s.creatorGone = false := by
+        cases hg : s.creatorGone
+        · rfl
+        · exfalso; simp_all
+      refine ⟨rfl, hg, ?_, ?_⟩ <;> simp_all
 
 theorem work_owed_weak {s : St} (h : Inv s) (hq : s.queue ≠ []) :
     (∃ k, k < s.nw ∧ ((s.w k).pc = .gotPre ∨ (s.w k).pc.isRunning = true)) ∨
